@@ -15,6 +15,7 @@ from typing import (
     Dict,
     cast,
     Optional,
+    Set,
 )  # pylint: disable=unused-import
 
 import asttokens.asttokens
@@ -495,6 +496,22 @@ def collect_variable_lookup(
     return variable_lookup
 
 
+def _collect_code_names(condition: CallableT) -> Set[str]:
+    """Collect the names used in the compiled code of the condition, including the nested code objects."""
+    names = set()  # type: Set[str]
+
+    code = getattr(condition, "__code__", None)
+    stack = [] if code is None else [code]
+    while stack:
+        code = stack.pop()
+        names.update(code.co_names)
+        for const in code.co_consts:
+            if inspect.iscode(const):
+                stack.append(const)
+
+    return names
+
+
 def repr_values(condition: Callable[..., bool], lambda_inspection: Optional[ConditionLambdaInspection],
                 resolved_kwargs: Mapping[str, Any], a_repr: reprlib.Repr) -> List[str]:
     """
@@ -557,7 +574,8 @@ def repr_values(condition: Callable[..., bool], lambda_inspection: Optional[Cond
 
         variable_lookup = collect_variable_lookup(condition=condition, resolved_kwargs=condition_kwargs)
 
-        recompute_visitor = icontract._recompute.Visitor(variable_lookup=variable_lookup)
+        recompute_visitor = icontract._recompute.Visitor(
+            variable_lookup=variable_lookup, code_names=_collect_code_names(condition=condition))
 
         recompute_visitor.visit(node=lambda_inspection.node.body)
         recomputed_values = recompute_visitor.recomputed_values
